@@ -506,12 +506,16 @@ def check_c17(tier, seed, known, run_gen, t0):
         "wall_s": round(time.time() - t0, 2),
         "violations": len(violations),
     }
+    if violations:
+        ev["coverage"]["violation_details"] = violations[:200]
     os.makedirs(CHK.EVIDENCE_DIR, exist_ok=True)
     with open(os.path.join(CHK.EVIDENCE_DIR, "C17.json"), "w") as f:
         json.dump(ev, f, indent=1, ensure_ascii=False)
-    for v in violations:
+    for v in violations[:12]:
         print("VIOLATION property=%s replay=%s" % (prop, v["replay"]))
         print("  " + v["what"])
+    if len(violations) > 12:
+        print("(%d more violations; see the evidence file)" % (len(violations) - 12))
     if violations:
         return 1
     if inconclusive:
